@@ -148,25 +148,109 @@ func mapPairs(e ast.Expr) ([][2]string, bool) {
 
 // chainOps collects the identifiers X compared in a chain `v <op> pkg.X <join> v <op> pkg.Y …` inside fn,
 // for every binary expression whose left operand's selector/ident is `field` (e.g. "Op", "op", "Typ").
-func chainOps(body ast.Node, field string, cmp token.Token) []string {
+// chainOps recognises exactly one shape: the body is a single `return c1 || c2 || …` where every ci is
+// `<x>.<field> == <name>` (or `<field> == <name>`).  Anything else — extra statements, && , other comparisons — is
+// "not recognised" (nil), so that a refactoring never yields a half-read table.
+func chainOps(body *ast.BlockStmt, field string, cmp token.Token) []string {
+	if body == nil || len(body.List) != 1 {
+		return nil
+	}
+	rs, ok := body.List[0].(*ast.ReturnStmt)
+	if !ok || len(rs.Results) != 1 {
+		return nil
+	}
 	var res []string
 	seen := map[string]bool{}
-	ast.Inspect(body, func(n ast.Node) bool {
-		be, ok := n.(*ast.BinaryExpr)
-		if !ok || be.Op != cmp {
+	var walk func(e ast.Expr) bool
+	walk = func(e ast.Expr) bool {
+		switch v := e.(type) {
+		case *ast.ParenExpr:
+			return walk(v.X)
+		case *ast.BinaryExpr:
+			if v.Op == token.LOR {
+				return walk(v.X) && walk(v.Y)
+			}
+			if v.Op != cmp || selName(v.X) != field {
+				return false
+			}
+			switch v.Y.(type) {
+			case *ast.SelectorExpr, *ast.Ident:
+			default:
+				return false
+			}
+			name := selName(v.Y)
+			if !seen[name] {
+				seen[name] = true
+				res = append(res, name)
+			}
 			return true
 		}
-		if selName(be.X) != field {
+		return false
+	}
+	if !walk(rs.Results[0]) {
+		return nil
+	}
+	return res
+}
+
+// pureChain reads `c1 <join> c2 <join> …` where every ci is `<x>.<field> <cmp> <name>`; ok=false for any other shape.
+func pureChain(e ast.Expr, field string, cmp, join token.Token) ([]string, bool) {
+	var res []string
+	var walk func(e ast.Expr) bool
+	walk = func(e ast.Expr) bool {
+		switch v := e.(type) {
+		case *ast.ParenExpr:
+			return walk(v.X)
+		case *ast.BinaryExpr:
+			if v.Op == join {
+				return walk(v.X) && walk(v.Y)
+			}
+			if v.Op != cmp || selName(v.X) != field {
+				return false
+			}
+			switch v.Y.(type) {
+			case *ast.SelectorExpr, *ast.Ident:
+			default:
+				return false
+			}
+			res = append(res, selName(v.Y))
 			return true
 		}
-		name := selName(be.Y)
-		if !seen[name] {
-			seen[name] = true
-			res = append(res, name)
+		return false
+	}
+	if !walk(e) {
+		return nil, false
+	}
+	return res, true
+}
+
+// chainIn finds, inside a larger function, THE condition (of an if statement or a return) that is a pure chain of at
+// least two comparisons on the field; none or several candidates mean "not recognised".
+func chainIn(fd *ast.FuncDecl, field string, cmp, join token.Token) ([]string, bool) {
+	if fd == nil || fd.Body == nil {
+		return nil, false
+	}
+	var cands [][]string
+	consider := func(e ast.Expr) {
+		if r, ok := pureChain(e, field, cmp, join); ok && len(r) >= 2 {
+			cands = append(cands, r)
+		}
+	}
+	ast.Inspect(fd.Body, func(n ast.Node) bool {
+		switch v := n.(type) {
+		case *ast.IfStmt:
+			consider(v.Cond)
+		case *ast.ReturnStmt:
+			if len(v.Results) == 1 {
+				consider(v.Results[0])
+			}
 		}
 		return true
 	})
-	return res
+	if len(cands) != 1 {
+		return nil, false
+	}
+	return cands[0], true
 }
 
 func optList(items []string, ok bool) string {
@@ -389,6 +473,11 @@ func main() {
 		if cl, isCl := findVar(redF, "reducers").(*ast.CompositeLit); isCl {
 			ok = true
 			for _, el := range cl.Elts {
+				// only a list of plain function names is recognised (a factory call such as binary(…) is not)
+				if _, isIdent := el.(*ast.Ident); !isIdent {
+					ok = false
+					break
+				}
 				items = append(items, selName(el))
 			}
 		}
@@ -430,11 +519,11 @@ func main() {
 	_, baseF := parseFile(filepath.Join(repo, "pkg/driver/base.go"))
 	pairDef("sharedFn", baseF, "Shared", false)
 	{
-		r, ok := chain(baseF, "Render", "Op", token.NEQ)
+		r, ok := chainIn(findFunc(baseF, "Render"), "Op", token.NEQ, token.LAND)
 		o.def("noParenOpsRender", "Option (List String)", optList(r, ok))
-		r, ok = chain(baseF, "RenderParam", "Op", token.NEQ)
+		r, ok = chainIn(findFunc(baseF, "RenderParam"), "Op", token.NEQ, token.LAND)
 		o.def("noParenOpsRenderParam", "Option (List String)", optList(r, ok))
-		r, ok = chain(baseF, "isSimple", "Op", token.EQL)
+		r, ok = chainIn(findFunc(baseF, "isSimple"), "Op", token.EQL, token.LOR)
 		o.def("simpleOps", "Option (List String)", optList(r, ok))
 	}
 	o.sb.WriteString("end GoLucene.Generated\n")
